@@ -19,6 +19,7 @@ DECIDED = [
     "R-C15-PROMOTE: due delayed messages are promoted before every fetch (in-memory: __update_delayed dominates the first take and recurs in the idle loop; Redis: the delayed set "
     "is polled before the normal list) - a continuously non-empty waiting queue cannot starve a message whose time has come (rules of C05's POLL, reused)",
     "R-C15-ELAPSED: a deferred_until that has already passed is not returned as due time, so an immediately deliverable message is queued like any other (C06's first-run rule, reused)",
+    "R-C15-DISCIPLINE (insert only, hand-out): __put_in_queue removes nothing; the name handed out by the fetch is the element the oldest-first scan is looking at",
 ]
 NOT_DECIDED = ["order across histories with concurrent producers/consumers", "RabbitMQ (server-side ordering)", "fairness between priorities (randomised by design)"]
 ASSUMPTIONS = ["Redis LRANGE returns elements left to right, LPUSH/RPUSH add at the left/right end, LREM with negative count scans from the tail", "asyncio.Queue is FIFO for put_nowait/get_nowait"]
